@@ -43,6 +43,15 @@ CLAIMED = {
              "placement and checks Called-xor-Dropped on the interpreter; every program is executed on the real API with "
              "instrumented executors.",
         note=SEQ_NOTE, design="7/C05", technique="TLA+ reference interpreter; TLC-enumerated programs replayed on the code"),
+    "C06": dict(
+        text="SharedCore.tla models the lock-free callback stack, the reference counter thresholds (copy / last callback "
+             "may move / last holder may move) and every observer operation at yaclib_std-operation granularity; TLC checks "
+             "it exhaustively for a fulfiller and two observers x 8 observer operations; recorded executions of the real "
+             "code (all schedules for one observer, preemption-bounded for pairs, random for three) are validated against "
+             "it with the memory model and an abstract monitor; TLC behaviours (incl. injected spurious weak-CAS failures) "
+             "are replayed on the code.",
+        note=CONC_NOTE, design="7/C06",
+        technique="TLA+ spec + TLC model checking; schedule enumeration on the code with TLC trace validation; replay"),
     "C12": dict(
         text="Pipeline.tla in lazy mode: TLC enumerates lazy programs x six ways of starting/abandoning, checks on the "
              "interpreter that a started Task equals its eager twin and that cancellation runs no value callback, and every "
@@ -108,7 +117,7 @@ def main():
 
 
 HOOK_COMMITS = ["286d692", "d1e7f53"]
-FIX_COMMITS = ["8086256", "48cc44a"]
+FIX_COMMITS = ["8086256", "48cc44a", "6c036e9", "8faf037"]
 
 if __name__ == "__main__":
     main()
